@@ -156,6 +156,34 @@ def check_property(pid, tier, seed, relock=False, only=None, jobs=None, verbose=
             exit_code = 1
         else:
             undecided.append(f"obligation {name} [{f['case']}] has a counter-model but was never discharged before and does not replay")
+    # a locked (discharged on the unchanged tree) obligation that no solver can discharge any more, in a function whose executed source text
+    # differs from the locked tree: the obligation fails -- reported as the violation, without an input (the solvers' verdict is `unknown`).
+    # With an unchanged source text the same situation is solver trouble, not a change of the code: undecided.
+    import hashlib as _hl
+    cur_exec = {}
+    for o in outs:
+        if o.get("exec_hash"):
+            cur_exec.setdefault(o["target"], set()).add(o["exec_hash"])
+    cur_exec = {t: _hl.sha256("|".join(sorted(v)).encode()).hexdigest()[:16] for t, v in cur_exec.items()}
+    locked_exec = lock.get("__exec__", {}).get(pid, {})
+    still_unknown = []
+    seen_u = set()
+    for name, u in unknowns:
+        target = agg[name].get("target")
+        changed = target in locked_exec and cur_exec.get(target) is not None and locked_exec[target] != cur_exec[target]
+        if locked.get(name) == "discharged" and changed and not relock:
+            if name in seen_u:
+                continue
+            seen_u.add(name)
+            rp = write_replay(pid, name, {"case": u.get("case"), "path": u.get("path"), "model": "", "witness": None},
+                              {"verifier_output": "unknown: z3 " + z3.get_version_string() + " (API solver, SMT-LIB front end, reseeded), cvc5 --finite-model-find --strings-exp and the small-model "
+                                                  "search all failed to discharge or refute this obligation within their budgets",
+                               "was_discharged_on_locked_tree": True, "function_source_changed_since_lock": True})
+            lines.append(f"VIOLATION property={pid} replay={rp} obligation={name} no-failing-input-found")
+            exit_code = 1
+        else:
+            still_unknown.append((name, u))
+    unknowns = still_unknown
     for f in b_viol:
         os.makedirs(os.path.join(REPLAYS, pid), exist_ok=True)
         path = os.path.join(REPLAYS, pid, runner.slug("bounded__" + str(f.get("key"))) + ".json")
@@ -172,6 +200,7 @@ def check_property(pid, tier, seed, relock=False, only=None, jobs=None, verbose=
     if relock:
         lock[pid] = {name: ("discharged" if a["status"] == "discharged" else "known-finding" if a["status"] == "sat" else a["status"])
                      for name, a in sorted(agg.items()) if a["kind"] != "refute"}
+        lock.setdefault("__exec__", {})[pid] = cur_exec
         with open(runner.LOCK, "w") as f:
             json.dump(lock, f, indent=1, sort_keys=True)
 
